@@ -175,3 +175,55 @@ def remove(case, ctx):
     if np.max(np.abs(zero[mask != 0])) > tol:
         raise Violation("C12.remove.pure", f"an OPD made only of modes {modes} is not reduced to zero "
                                            f"(max {np.max(np.abs(zero[mask != 0])):.3e})")
+
+
+# --- history: the same mask and modes fitted in different coordinate systems ------------------------
+
+@st.composite
+def coords_history_case(draw, tier):
+    c = draw(fit_case(tier))
+    steps = []
+    for _ in range(draw(st.integers(2, 4))):
+        kind = draw(st.sampled_from(["default", "custom", "custom"]))
+        steps.append({"coords": kind, "shift": [draw(gen.finite(-1.5, 1.5)), draw(gen.finite(-1.5, 1.5))],
+                      "rotate": draw(st.sampled_from([0, 30.0, 90, -45.0, 10.0]))})
+    c["steps"] = steps
+    return c
+
+
+@hyp("C12", "coords_history", lambda tier: coords_history_case(tier),
+     "the same mask, mode list and normalisation fitted / removed 2-4 times in a row with different coordinate "
+     "systems (default, shifted, rotated): every call must still satisfy the round trip and the projection law",
+     examples=(250, 1000), budget_s=(150, 900))
+def coords_history(case, ctx):
+    mask, modes = case["mask"], case["modes"]
+    c = np.array(case["coeffs"])
+    kinds = [s["coords"] for s in case["steps"]]
+    ctx.tag(f"steps:{len(kinds)}", "default_then_custom" if "default" in kinds and "custom" in kinds else None,
+            "noncontiguous" if modes != list(range(1, len(modes) + 1)) else "modes_1..k")
+    ctx.nontrivial_if(len({(s["coords"], tuple(s["shift"]), s["rotate"]) for s in case["steps"]}) >= 2)
+    eps = np.finfo(float).eps
+    for i, stp in enumerate(case["steps"]):
+        sub = dict(case, coords=stp["coords"], shift=stp["shift"], rotate=stp["rotate"])
+        with lentil_call("C12.history", "zernike / zernike_coordinates"):
+            kw = _coords(sub)
+            B = _basis(sub, modes, kw, case["normalize"])
+        A = B.reshape(len(modes), -1)[:, mask.ravel() != 0].T
+        sv = np.linalg.svd(A, compute_uv=False)
+        cond = float(sv[0] / sv[-1]) if sv[-1] > 0 else np.inf
+        if not cond < 1e6:
+            raise Skip("ill_conditioned_mode_set")
+        opd = np.einsum("i,ijk->jk", c, B)
+        tol = cond * 256 * eps * float(np.max(np.abs(c))) * np.sqrt(len(c)) + 1e-300
+        with lentil_call("C12.history", f"zernike_fit (step {i}, {stp['coords']})"):
+            got = np.asarray(lentil.zernike_fit(opd, mask, modes, normalize=case["normalize"], **kw), dtype=float)
+        if got.shape != c.shape or np.max(np.abs(got - c)) > tol:
+            raise Violation("C12.history.fit", f"step {i} ({stp['coords']} coordinates, shift {stp['shift']}, rotate "
+                                               f"{stp['rotate']}): zernike_fit returned {got.tolist()} for an OPD "
+                                               f"composed with {c.tolist()} (modes {modes}); earlier steps used "
+                                               f"{kinds[:i]}")
+        if case["normalize"]:
+            with lentil_call("C12.history", f"zernike_remove (step {i})"):
+                zero = np.asarray(lentil.zernike_remove(opd, mask, modes, **kw), dtype=float)
+            if np.max(np.abs(zero[mask != 0])) > tol * np.sqrt(mask.size) * 4:
+                raise Violation("C12.history.remove", f"step {i}: an OPD made only of modes {modes} is not removed")
